@@ -5,15 +5,17 @@
     spec <18 header nats> <oemhex> <digesthex> <rec>*
                                             -> <image hex> # <view demanded by Spec.HpmFormat>
         rec ::= s:<kind>:<comp> | u:<comp>:<maj>:<min>:<a0>:<a1>:<a2>:<a3>:<deschex>:<fwhex>
-    parse <oemWholeRest 0|1> <descEscapes 0|1> <image hex>
+    parse <oemWholeRest 0|1> <descEscapes 0|1> <oemUnsetEmpty 0|1> <image hex>
                                             -> <view> | <error tag>              (Model)
     chunks <n> <hex>                        -> <hex> <hex> …                     (Model)
-    upload <bs> <timeout> <interval> <lat> <retry> <binary hex> <plan>
+    upload <checked 0|1> <bs> <timeout> <interval> <lat> <retry> <binary hex> <plan>
                                             -> <tag> <now> <trace>               (Model × Spec device)
-        plan ::= - | item,item,…   item ::= o | p<polls> | e<cc> | t     (blocks beyond the list: o)
+        plan ::= - | item,item,…   item ::= o | p<polls> | f<polls>.<final cc> | e<cc> | t
+                                            (p<k> = f<k>.0; blocks beyond the list: o)
         trace ::= token*           token ::= B<num>:<hex> | S
-    judge <bs> <plan> <binary hex> <trace>  -> exact=<0|1> data=<0|1> numbered=<0|1> polls=<0|1>  (Spec oracle)
+    judge <bs> <plan> <binary hex> <trace>  -> exact=<0|1> data=<0|1> numbered=<0|1> polls=<0|1> waits=<0|1>  (Spec oracle)
     judgeabort <bs> <plan> <binary hex> <j> <trace> -> aborted=<0|1>
+    judgelong <bs> <plan> <binary hex> <j> <polls> <trace> -> abortedlong=<0|1> sawfinal=<0|1>
 -/
 import PyIpmi.Base.Proto
 import PyIpmi.Model.Hpm
@@ -27,7 +29,7 @@ def showHeader (h : HeaderView) : String :=
   s!"H sig={toHex h.signature} fv={h.formatVersion} dev={h.deviceId} man={h.manufacturerId} prod={h.productId} " ++
   s!"time={h.time} cap={h.capabilities} comps={natList h.components} st={h.selftestTimeout} rb={h.rollbackTimeout} " ++
   s!"ina={h.inaccessibilityTimeout} ecr={showVersion h.earliest} fr={showVersion h.firmwareRevision} " ++
-  s!"oemlen={h.oemLength} oem={toHex h.oem} chk={h.checksum} len={h.length}"
+  s!"oemlen={h.oemLength} oem={if h.oemPresent then toHex h.oem else "MISSING"} chk={h.checksum} len={h.length}"
 
 def showAction (a : ActionView) : String :=
   s!"A t={a.actionType} c={a.components} k={a.checksum} l={a.length}" ++
@@ -50,7 +52,13 @@ def parseRec (s : String) : Option Record :=
 def parsePlanItem (s : String) : Option Reply :=
   if s == "o" then some .ok
   else if s == "t" then some .noAnswer
-  else if s.startsWith "p" then (s.drop 1).toNat?.map .inProgress
+  else if s.startsWith "p" then (s.drop 1).toNat?.map (Reply.inProgress · 0)
+  else if s.startsWith "f" then
+    match (s.drop 1).toString.splitOn "." with
+    | [k, f] => do
+      let f ← f.toNat?
+      if f == 0x80 then none else pure (.inProgress (← k.toNat?) f)
+    | _ => none
   else if s.startsWith "e" then (s.drop 1).toNat?.map .err
   else none
 
@@ -101,33 +109,39 @@ def handleC18 (line : String) : String :=
       let img : Image := ⟨h, rs⟩
       pure (toHex (encodeImage (fun _ => d) img) ++ " # " ++ showImage (img.view (fun _ => d)))
     r.getD "bad-op"
-  | ["parse", ow, de, h] =>
-    match bit ow, bit de, ofHex h with
-    | some ow, some de, some bs =>
-      match parseImage ⟨ow, de⟩ bs with
+  | ["parse", ow, de, ou, h] =>
+    match bit ow, bit de, bit ou, ofHex h with
+    | some ow, some de, some ou, some bs =>
+      match parseImage ⟨ow, de, ou⟩ bs with
       | .ok v => showImage v
       | e => e.tag
-    | _, _, _ => "bad-op"
+    | _, _, _, _ => "bad-op"
   | ["chunks", n, h] =>
     match n.toNat?, ofHex h with
     | some n, some bs => " ".intercalate ((chunks n bs).map toHex)
     | _, _ => "bad-op"
-  | ["upload", bs, timeout, interval, lat, retry, bin, plan] =>
-    match bs.toNat?, timeout.toNat?, interval.toNat?, lat.toNat?, parseInt retry, ofHex bin, parsePlan plan with
-    | some bs, some timeout, some interval, some lat, some retry, some bin, some plan =>
-      let (o, s) := uploadBinary bs timeout interval lat retry bin (Dev.init plan)
+  | ["upload", ck, bs, timeout, interval, lat, retry, bin, plan] =>
+    match bit ck, bs.toNat?, timeout.toNat?, interval.toNat?, lat.toNat?, parseInt retry, ofHex bin, parsePlan plan with
+    | some ck, some bs, some timeout, some interval, some lat, some retry, some bin, some plan =>
+      let (o, s) := uploadBinary ck bs timeout interval lat retry bin (Dev.init plan)
       s!"{o.tag} {s.now} " ++ " ".intercalate (s.dev.trace.map showEv)
-    | _, _, _, _, _, _, _ => "bad-op"
+    | _, _, _, _, _, _, _, _ => "bad-op"
   | "judge" :: bs :: plan :: bin :: trace =>
     match bs.toNat?, parsePlan plan, ofHex bin, trace.mapM parseEv with
     | some bs, some plan, some bin, some tr =>
       s!"exact={b01 (uploadExact bs plan bin tr)} data={b01 (decide (((blocksOf tr).map (·.2)).flatten = bin))} " ++
-      s!"numbered={b01 (numberedFrom bs 0 (blocksOf tr))} polls={b01 (pollsOk plan 0 tr)}"
+      s!"numbered={b01 (numberedFrom bs 0 (blocksOf tr))} polls={b01 (pollsOk plan 0 tr)} " ++
+      s!"waits={b01 (waitsOk plan (blocksOf tr).length 0 tr)}"
     | _, _, _, _ => "bad-op"
   | "judgeabort" :: bs :: plan :: bin :: j :: trace =>
     match bs.toNat?, parsePlan plan, ofHex bin, j.toNat?, trace.mapM parseEv with
     | some bs, some plan, some bin, some j, some tr => s!"aborted={b01 (uploadAbortedAt bs plan bin j tr)}"
     | _, _, _, _, _ => "bad-op"
+  | "judgelong" :: bs :: plan :: bin :: j :: k :: trace =>
+    match bs.toNat?, parsePlan plan, ofHex bin, j.toNat?, k.toNat?, trace.mapM parseEv with
+    | some bs, some plan, some bin, some j, some k, some tr =>
+      s!"abortedlong={b01 (uploadAbortedLongAt bs plan bin j tr)} sawfinal={b01 (sawFinal k tr)}"
+    | _, _, _, _, _, _ => "bad-op"
   | _ => "bad-op"
 
 def main : IO Unit := do
